@@ -61,8 +61,25 @@ pub enum AtomKind {
     NestedQ,
     NestedSelf,
     CountPos,
+    /// `@.p < 10`: false also for operands that are not ordered against a number
+    CmpOrd,
+    /// nested filter reached through a descendant segment: `@..[?@.r]`
+    NestedDesc,
+    /// nested filter inside a multi-selector bracket: `@[99, ?@.r]`
+    NestedUnion,
 }
-pub const KINDS: [AtomKind; 7] = [AtomKind::Exists, AtomKind::CmpEq, AtomKind::Match, AtomKind::RootFlag, AtomKind::NestedQ, AtomKind::NestedSelf, AtomKind::CountPos];
+pub const KINDS: [AtomKind; 10] = [
+    AtomKind::Exists,
+    AtomKind::CmpEq,
+    AtomKind::Match,
+    AtomKind::RootFlag,
+    AtomKind::NestedQ,
+    AtomKind::NestedSelf,
+    AtomKind::CountPos,
+    AtomKind::CmpOrd,
+    AtomKind::NestedDesc,
+    AtomKind::NestedUnion,
+];
 
 fn nm(s: &str) -> StrLit {
     StrLit::plain(s)
@@ -115,6 +132,36 @@ fn atom_expr(kind: AtomKind, i: usize) -> (Expr, bool) {
                 Box::new(TestE::Q(rel(vec![Seg {
                     desc: false,
                     sels: vec![Sel::Filter(Expr::Test(false, Box::new(TestE::Q(rel(vec![nseg(&r)])))))],
+                    dot: false,
+                }]))),
+            ),
+            true,
+        ),
+        AtomKind::CmpOrd => (
+            Expr::Cmp(
+                Box::new(Cmpable::Sing(Sing { abs: false, steps: vec![SingStep::Name(nm(&p), true)] })),
+                if i % 2 == 0 { Op::Lt } else { Op::Ge },
+                Box::new(Cmpable::Lit(Lit::Num(num_lit_int(10)))),
+            ),
+            false,
+        ),
+        AtomKind::NestedDesc => (
+            Expr::Test(
+                false,
+                Box::new(TestE::Q(rel(vec![Seg {
+                    desc: true,
+                    sels: vec![Sel::Filter(Expr::Test(false, Box::new(TestE::Q(rel(vec![nseg(&r)])))))],
+                    dot: false,
+                }]))),
+            ),
+            true,
+        ),
+        AtomKind::NestedUnion => (
+            Expr::Test(
+                false,
+                Box::new(TestE::Q(rel(vec![Seg {
+                    desc: false,
+                    sels: vec![Sel::Index(99), Sel::Filter(Expr::Test(false, Box::new(TestE::Q(rel(vec![nseg(&r)])))))],
                     dot: false,
                 }]))),
             ),
@@ -190,6 +237,44 @@ fn atom_members(src: &mut Src, kind: AtomKind, i: usize, truth: bool, out: &mut 
         }
         AtomKind::NestedSelf => {
             let n = format!("n{}", i);
+            if truth {
+                out.push((n, J::Obj(vec![(r.clone(), src.pick(&falsy).clone())])));
+            } else if src.bool() {
+                out.push((n, J::Obj(vec![])));
+            }
+        }
+        AtomKind::CmpOrd => {
+            // even i: `@.p < 10`, odd i: `@.p >= 10`
+            let lt = i % 2 == 0;
+            if truth {
+                out.push((p, if lt { J::Int(src.range(-3, 9)) } else { if src.bool() { J::Int(src.range(10, 20)) } else { J::Float(10.0) } }));
+            } else {
+                match src.below(6) {
+                    0 => {}
+                    1 => out.push((p, if lt { J::Int(src.range(10, 20)) } else { J::Int(src.range(-3, 9)) })),
+                    2 => out.push((p, J::Str("5".into()))),
+                    3 => out.push((p, J::Null)),
+                    4 => out.push((p, J::Arr(vec![J::Int(1)]))),
+                    _ => out.push((p, J::Bool(true))),
+                }
+            }
+        }
+        AtomKind::NestedDesc => {
+            let n = format!("d{}", i);
+            if truth {
+                // at depth 1 (a direct child of the child under test) or deeper
+                let hit = J::Obj(vec![(r.clone(), src.pick(&falsy).clone())]);
+                out.push((n, if src.bool() { hit } else { J::Arr(vec![J::Obj(vec![("w".into(), hit)])]) }));
+            } else {
+                match src.below(3) {
+                    0 => {}
+                    1 => out.push((n, J::Obj(vec![("w".into(), J::Arr(vec![J::Int(1)]))]))),
+                    _ => out.push((n, J::Arr(vec![]))),
+                }
+            }
+        }
+        AtomKind::NestedUnion => {
+            let n = format!("u{}", i);
             if truth {
                 out.push((n, J::Obj(vec![(r.clone(), src.pick(&falsy).clone())])));
             } else if src.bool() {
@@ -330,7 +415,7 @@ fn check_formula(f: &F, k: usize, kinds: &[AtomKind], src: &mut Src, as_object: 
     let v = doc.to_value();
     let map = node_map(&v);
     obs.eval(1);
-    let nested = kinds[..k].iter().any(|x| matches!(x, AtomKind::NestedQ | AtomKind::NestedSelf));
+    let nested = kinds[..k].iter().any(|x| matches!(x, AtomKind::NestedQ | AtomKind::NestedSelf | AtomKind::NestedDesc | AtomKind::NestedUnion));
     let varying = !exp_ids.is_empty() && exp_ids.len() < children.len();
     if (f.connectives() >= 2 || f.has_not() || nested) && varying {
         obs.nontrivial(&(text.as_str(), doc.text()), || json!({"query": text, "doc": doc.to_value(), "formula": f.text(), "kept_ids": exp_ids}));
